@@ -448,7 +448,8 @@ func runC02(env *Env) error {
 		`{"state":"authenticating","scheme":"guest","authentication":"x"}`,
 		`{"state":"failed","reason":{"code":1.5}}`, `{"state":"failed","reason":{"code":9223372036854775808}}`,
 		`{"state":"failed","reason":{"code":-9223372036854775808,"description":null}}`,
-		`{"event":"failed","reason":"r"}`, `{"method":"get","uri":"http://x/y"}`, `{"method":"get","uri":"%zz"}`,
+		`{"event":"failed","reason":"r"}`, `{"event":"consumed","id":"n1","reason":{"code":5,"description":"d"}}`,
+		`{"event":"received","reason":{"code":1}}`, `{"event":"failed","id":"n2","reason":{"code":2,"description":"x"}}`, `{"method":"get","uri":"http://x/y"}`, `{"method":"get","uri":"%zz"}`,
 		`{"method":"get","uri":"/a b"}`, `{"method":"get","uri":"LIME://x/y"}`,
 		`{"metadata":{"a":null,"b":"c"},"event":"consumed"}`, `{"metadata":{"a":1},"event":"consumed"}`,
 		`{"type":"application/json","content":null}`, `{"type":"application/json","content":[1]}`,
